@@ -85,9 +85,13 @@ def nf(x):
   return repr(x)
 
 
-def roundtrip(ctx, make_ast, label, text_key, case, nontrivial):
-  """make_ast() must return a *fresh* AST each time it is called."""
+def roundtrip(ctx, make_ast, label, text_key, case, nontrivial,
+              make_ref=None, compare_decl=True):
+  """make_ast() must return a *fresh* AST each time it is called.  make_ref,
+  if given, builds the declarations the decoded AST must equal (used when
+  serialisation renames the module: package __init__ stubs)."""
   pickle_utils, _, pytd_utils, _, visitors = _mods()
+  make_ref = make_ref or make_ast
   ast = make_ast()
   try:
     b = pickle_utils.Serialize(ast)
@@ -95,18 +99,34 @@ def roundtrip(ctx, make_ast, label, text_key, case, nontrivial):
   except Exception as e:  # pylint: disable=broad-except
     raise Violation("serialize-or-decode-raises:%s" % type(e).__name__,
                     "%s: %r" % (label, e), case)
-  ref = make_ast()
+  ref = make_ref()
   ref.Visit(visitors.ClearClassPointers())
   ref = ref.Visit(visitors.CanonicalOrderingVisitor())
   dast = d.ast
+  # eq/hash law across the three trees alive after a serialisation: the
+  # serialised original (SerializeAst works on it in place), its decoded twin
+  # and the reference
+  seen = {}
+  for tree in (ast, dast, ref):
+    per_tree = {}
+    for t in collect_types(tree):
+      if not isinstance(t, (_mods()[1].NamedType, _mods()[1].ClassType)):
+        per_tree.setdefault(pt.Print(t) + type(t).__name__, t)
+    for k, t in list(per_tree.items())[:6]:
+      seen.setdefault((id(tree), k), t)
+  law_pairs(ctx, list(seen.values()), dict(case, law="after-serialize:" + label))
   ctx.case(key=text_key, nontrivial=nontrivial,
            sample=(label + ": " + text_key[:400]) if nontrivial else None,
            classes=["roundtrip:" + label])
-  ctx.check(pytd_utils.ASTeq(dast, ref), "decoded-ast-differs",
+  # (compare_decl=False: the stub spells other modules by import aliases,
+  # which serialisation replaces by the real names on purpose)
+  ctx.check(not compare_decl or pytd_utils.ASTeq(dast, ref),
+            "decoded-ast-differs",
             "%s: decoded AST != canonical original\n%s" % (
                 label, pytd_utils.ASTdiff(dast, ref)[:600]
                 if hasattr(pytd_utils, "ASTdiff") else ""), case)
-  ctx.check(nf(dast) == nf(make_ast()), "decoded-declarations-differ",
+  ctx.check(not compare_decl or nf(dast) == nf(make_ref()),
+            "decoded-declarations-differ",
             "%s: decoded declarations differ from the original ones under an "
             "order-insensitive structural comparison" % label, case)
   ctx.check(pickle_utils.Encode(d) == b, "re-encode-not-byte-stable",
@@ -227,6 +247,13 @@ def part_generated(ctx, n):
 
     roundtrip(ctx, fresh_resolved, "resolved", text, case, nt)
     roundtrip(ctx, fresh_unresolved, "unresolved", "U:" + text, case, nt)
+    # the same stub as a package's __init__: serialisation renames the module
+    roundtrip(ctx, lambda: pt.load_resolved(text, "pkg.__init__")[0],
+              "resolved-package-init", "RP:" + text, case, nt,
+              make_ref=lambda: pt.load_resolved(text, "pkg")[0])
+    roundtrip(ctx, lambda: pt.parse(text, "pkg.__init__"),
+              "unresolved-package-init", "UP:" + text, case, nt,
+              make_ref=lambda: pt.parse(text, "pkg"))
     # eq/hash law on the type nodes of this stub and their permutations
     ast = fresh_unresolved()
     types = collect_types(ast)
@@ -253,6 +280,63 @@ def part_generated(ctx, n):
     law_pairs(ctx, pool, {"kind": "law", "text": text})
 
   hyp_run(ctx, gen_pyi.stub(), body, n, label="gen")
+
+
+ALIAS_TEXTS = [
+    # module aliases in annotations (names under foo.bar cannot be resolved
+    # here: unresolved route)
+    ("alias", """import foo.bar as fb
+import foo.bar.sub as fbs
+from typing import List, Union
+x: fb.Thing
+w: Union[fb.Thing, fbs.Other, int]
+def f(a: List[fb.sub.Other]) -> fb.Thing: ...
+class C(fb.Base):
+    y: fb.Thing
+    def m(self, a: fbs.Other) -> List[fb.Thing]: ...
+"""),
+    # the alias of the previous stub is a real top-level module name here
+    ("after-alias", """from fb import Thing
+import fb.sub
+import fbs.deep
+from typing import List
+y: Thing
+z: fb.sub.Q
+v: List[fbs.deep.Leaf]
+def g(a: List[fb.sub.Q]) -> Thing: ...
+"""),
+    ("after-alias-2", """from fbs import Other
+u: Other
+"""),
+    ("alias-again", """import foo.bar as fb
+x2: fb.Thing
+"""),
+]
+
+
+def part_aliases(ctx):
+  """Stubs with module aliases, serialised one after the other in one process
+  (the second uses the first one's alias as a real module name)."""
+  for order in ([0, 1, 2, 3], [1, 2, 0, 1, 2]):
+    for k in order:
+      tag, text = ALIAS_TEXTS[k]
+      case = {"kind": "alias-sequence", "order": order, "text": text}
+      roundtrip(ctx, lambda text=text: pt.parse(text, "m"),
+                "unresolved:" + tag, "U:%s:%s" % (order, text), case, True)
+      # the export dialect: classes of other modules become late types,
+      # which is where module aliases are undone
+      from pytype.pytd import serialize_ast
+
+      def exportable(text=text, name="m"):
+        return serialize_ast.SourceToExportableAst(name, text, pt.new_loader())
+
+      roundtrip(ctx, exportable, "exportable:" + tag,
+                "X:%s:%s" % (order, text), case, True,
+                compare_decl=" as " not in text)
+      roundtrip(ctx, lambda text=text: pt.parse(text, "pkg.sub.__init__"),
+                "unresolved-package-init:" + tag,
+                "UP:%s:%s" % (order, text), case, True,
+                make_ref=lambda text=text: pt.parse(text, "pkg.sub"))
 
 
 def part_bundled(ctx):
@@ -308,6 +392,8 @@ def run_shard(ctx):
   boot.ensure()
   if ctx.shard == 0:
     part_fixed_law(ctx)
+  if ctx.shard == 1 % ctx.nshards:
+    part_aliases(ctx)
   part_bundled(ctx)
   part_generated(ctx, 25 if ctx.quick() else 1500)
   try:
@@ -319,6 +405,9 @@ def run_shard(ctx):
 
 
 def replay(ctx, case):
+  if case.get("kind") == "alias-sequence":
+    part_aliases(ctx)
+    return
   if case.get("kind") in ("stub", "law"):
     text = case["text"]
     roundtrip(ctx, lambda: pt.load_resolved(text, "m")[0], "resolved", text,
